@@ -23,7 +23,7 @@ MUTANTS = [
     {'name': 'write_off_by_one', 'edits': [(W, '    if (c > writer->buffer_size) {', '    if (c > writer->buffer_size + 1) {')],
      'expect': {'C04': 'MEM-W'}},
     {'name': 'counter_only_when_ok', 'edits': [(W, '    writer->buffer_used += data->bsize;\n', '    if (writer->error_flags == BINSON_ERROR_NONE) {\n        writer->buffer_used += data->bsize;\n    }\n')],
-     'expect': {'C04': 'counter update', 'C09': 'counter after a failed write'}},
+     'expect': {'C04': 'counter update', 'C09': 'counter'}},
     {'name': 'memmove_before_error_test', 'edits': [(W, '''    if (writer->error_flags == BINSON_ERROR_NONE) {
         memmove(&writer->buffer[writer->buffer_used], data->bptr, data->bsize);
     }''', '''    if (c <= writer->buffer_size && c >= writer->buffer_used && NULL != writer->buffer) {
@@ -59,6 +59,12 @@ MUTANTS = [
      'expect': {'C12': 'current_state'}},
     {'name': 'writer_reset_keeps_counter', 'edits': [(W, "    writer->buffer_used = 0;\n    writer->error_flags = BINSON_ERROR_NONE;\n\n    return true;", "    writer->error_flags = BINSON_ERROR_NONE;\n\n    return true;")],
      'expect': {'C12': 'counter'}},
+    {'name': 'write_token_early_return', 'edits': [(W, "    bool ret = _write(writer, &value_descriptor);\n\n    if (value_data.bsize > 0) {", "    bool ret = _write(writer, &value_descriptor);\n    if (!ret) {\n        return false;\n    }\n\n    if (value_data.bsize > 0) {")],
+     'expect': {'C04': 'counter update', 'C09': 'counter'}},
+    {'name': 'begin_not_consumed_keeps_looping', 'edits': [(P, "                else if (state->flags == BINSON_STATE_IN_OBJ_EXPECTING_FIELD) {\n                    state->flags = BINSON_STATE_IN_OBJ_EXPECTING_VALUE;\n                }\n                break;", "                else if (state->flags == BINSON_STATE_IN_OBJ_EXPECTING_FIELD) {\n                    state->flags = BINSON_STATE_IN_OBJ_EXPECTING_VALUE;\n                }\n                else {\n                    proceed = true;\n                    continue;\n                }\n                break;")],
+     'expect': {'C16': '_advance_parsing'}},
+    {'name': 'rewind_too_short', 'edits': [(P, "parser->buffer_used -= bytes_consumed;", "parser->buffer_used -= bytes_consumed - 1;")],
+     'expect': {'C01': None}},
     # behaviour-preserving edits: every check must stay silent
     {'name': 'silent_boundary_reordered', 'edits': [(P, '''    size_t c = a + b;
 
